@@ -30,9 +30,17 @@ Theorem C09_split_recombine : forall n sl (xs : list Q), length xs = n ->
   (length (select (ind0 n sl) xs) + length (select (ind1 n sl) xs) = n)%nat.
 Proof. exact split_recombine. Qed.
 
+(** loaders store their inputs and options only - no remembered task graph that add_tomogram / add_loader (which update a batch in place)
+    could leave behind - and the lazy sub-volume arrays are named by dask from their content, so the graphs of different loaders or
+    tomograms never share a key (generated class-state and call facts) *)
+Theorem C09_no_stale_or_shared_graphs : loader_base_stores_options_only = true /\ single_loader_stores_inputs_only = true /\
+  batch_loader_stores_inputs_only = true /\ task_arrays_named_by_content = true.
+Proof. repeat split; reflexivity. Qed.
+
 Print Assumptions C09_chunking.
 Print Assumptions C09_mean_is_sum_over_count.
 Print Assumptions C09_order_independent.
 Print Assumptions C09_split_partition.
 Print Assumptions C09_split_nonempty.
 Print Assumptions C09_split_recombine.
+Print Assumptions C09_no_stale_or_shared_graphs.
